@@ -84,9 +84,15 @@ pub fn enumerate_opt<G: AffineRepr + 'static>(max1: usize, max2: usize, seed: u6
             count += 1;
             // the second-phase calls are made by one closure, and also split over two closures at every
             // position (the pairing state of single allocations carries over between closures)
-            for split in 0..=(if b.len() >= 2 { b.len() - 1 } else { 0 }) {
+            // ... and the closure is registered after all first-phase calls, or (one closure) after any prefix
+            // of them: registration is bookkeeping, it must not touch the pairing state
+            let n_split = if b.len() >= 2 { b.len() - 1 } else { 0 };
+            let n_reg = if b.is_empty() || a.len() > 3 { 0 } else { a.len() }; // registration positions only for <= 3 first-phase calls
+            for variant in 0..=(n_split + n_reg) {
+            let (split, reg) = if variant <= n_split { (variant, None) } else { (0, Some(variant - n_split - 1)) };
             let p2: Vec<&[Op]> = if b.is_empty() { vec![] } else if split == 0 { vec![b.as_slice()] } else { vec![&b[..split], &b[split..]] };
-            let shape = Shape::new("seq", a, &p2);
+            let mut shape = Shape::new("seq", a, &p2);
+            shape.register_at = reg;
             let (want_h, want_l) = expected(a, b);
             crate::arena::reset();
             let shr = new_shared::<G>(&shape, &Default::default(), mk_vals(seed));
@@ -122,7 +128,7 @@ pub fn enumerate_opt<G: AffineRepr + 'static>(max1: usize, max2: usize, seed: u6
                 }
             }
             if !ok {
-                out.push((format!("{} (closures split at {}): {}", name, split, detail), false));
+                out.push((format!("{} (closures split at {}, registered after {:?} first-phase calls): {}", name, split, reg, detail), false));
                 if stop_at_first {
                     return (count, out);
                 }
